@@ -6,6 +6,7 @@ import (
 
 	"github.com/shopspring/decimal"
 
+	"github.com/XiaoMi/Gaea/mysql"
 	"github.com/XiaoMi/Gaea/parser/ast"
 	"github.com/XiaoMi/Gaea/parser/format"
 	driver "github.com/XiaoMi/Gaea/parser/tidb-types/parser_driver"
@@ -24,6 +25,8 @@ type Rel struct {
 	HasLimit      bool
 	Offset, Count int64
 	LimitApplied  bool
+
+	prep *Prepared // lets Result() reuse the static field list
 }
 
 type rowset struct {
@@ -31,7 +34,24 @@ type rowset struct {
 	rows [][]Value
 }
 
-type ev struct{ db *DB }
+type ev struct {
+	db    *DB
+	memo  map[ast.Node]string // restored text of expressions (per evaluation or per Prepared)
+	plans map[*ast.SelectStmt]*selPlan
+	prep  *Prepared
+}
+
+func (e *ev) text(x ast.ExprNode) string {
+	if s, ok := e.memo[x]; ok {
+		return s
+	}
+	s := exprText(x)
+	if e.memo == nil {
+		e.memo = map[ast.Node]string{}
+	}
+	e.memo[x] = s
+	return s
+}
 
 func (e *ev) resultSet(n ast.ResultSetNode) (*rowset, error) {
 	switch x := n.(type) {
@@ -50,11 +70,7 @@ func (e *ev) resultSet(n ast.ResultSetNode) (*rowset, error) {
 			if db == "" {
 				db = e.db.Default
 			}
-			sc := &scope{}
-			for _, c := range t.Cols {
-				sc.cols = append(sc.cols, scol{db: db, tbl: alias, name: strings.ToLower(c.Name), typ: c.Type})
-			}
-			return &rowset{sc: sc, rows: t.Rows}, nil
+			return &rowset{sc: t.scope(db, alias), rows: t.Rows}, nil
 		case *ast.Join:
 			return e.join(s)
 		}
@@ -336,46 +352,40 @@ func limitOf(l *ast.Limit) (has bool, off, cnt int64, err error) {
 	return true, off, cnt, nil
 }
 
-func (e *ev) selectStmt(s *ast.SelectStmt, applyLimit bool) (*Rel, error) {
-	if s.Having != nil {
-		return nil, unsupported("HAVING")
-	}
-	if s.From == nil || s.From.TableRefs == nil {
-		return nil, unsupported("SELECT without FROM")
-	}
-	if len(s.WindowSpecs) != 0 {
-		return nil, unsupported("window functions")
-	}
-	src, err := e.join(s.From.TableRefs)
-	if err != nil {
-		return nil, err
-	}
-	sc := src.sc
+// selPlan is everything about a SELECT that depends on the schema only, not on the data.
+type selPlan struct {
+	items   []selItem
+	ords    []ordKey
+	desc    []bool
+	grouped bool
+	keyCols map[int]bool
+	keyList []int
+	names   []string
+	types   []Type
+	hasLim  bool
+	off     int64
+	cnt     int64
+	err     error
+}
 
-	// WHERE
-	var rows [][]Value
-	for _, r := range src.rows {
-		if s.Where != nil {
-			v, err := eval(s.Where, &rowCtx{sc: sc, row: r})
-			if err != nil {
-				return nil, err
-			}
-			t, err := truth(v)
-			if err != nil {
-				return nil, err
-			}
-			if t != 1 {
-				continue
-			}
-		}
-		rows = append(rows, r)
+func (e *ev) analyse(s *ast.SelectStmt, sc *scope) *selPlan {
+	if p, ok := e.plans[s]; ok {
+		return p
 	}
+	p := &selPlan{}
+	p.err = e.analyse1(s, sc, p)
+	if e.plans != nil {
+		e.plans[s] = p
+	}
+	return p
+}
+
+func (e *ev) analyse1(s *ast.SelectStmt, sc *scope, p *selPlan) error {
 	if s.Where != nil && hasAggregate(s.Where) {
-		return nil, invalid("aggregate in WHERE")
+		return invalid("aggregate in WHERE")
 	}
-
 	// select list
-	var items []selItem
+	items := make([]selItem, 0, len(s.Fields.Fields)+len(sc.cols))
 	hasAgg := false
 	for _, f := range s.Fields.Fields {
 		if f.WildCard != nil {
@@ -392,27 +402,28 @@ func (e *ev) selectStmt(s *ast.SelectStmt, applyLimit bool) (*Rel, error) {
 				n++
 			}
 			if n == 0 {
-				return nil, invalid("unknown table in wildcard")
+				return invalid("unknown table in wildcard")
 			}
 			continue
 		}
-		it := selItem{expr: f.Expr, colIdx: -1, alias: f.AsName.L, text: exprText(f.Expr)}
+		it := selItem{expr: f.Expr, colIdx: -1, alias: f.AsName.L}
 		inner := f.Expr
 		for {
-			p, ok := inner.(*ast.ParenthesesExpr)
+			pe, ok := inner.(*ast.ParenthesesExpr)
 			if !ok {
 				break
 			}
-			inner = p.Expr
+			inner = pe.Expr
 		}
 		if c, ok := inner.(*ast.ColumnNameExpr); ok {
 			i, err := sc.resolve(c.Name)
 			if err != nil {
-				return nil, err
+				return err
 			}
 			it.colIdx = i
 			it.name = c.Name.Name.O
 		} else {
+			it.text = e.text(f.Expr)
 			it.name = it.text
 		}
 		if f.AsName.O != "" {
@@ -420,10 +431,10 @@ func (e *ev) selectStmt(s *ast.SelectStmt, applyLimit bool) (*Rel, error) {
 		}
 		t, err := typeOf(f.Expr, sc)
 		if err != nil {
-			return nil, err
+			return err
 		}
 		if t.K == KNull {
-			return nil, unsupported("NULL literal in select list")
+			return unsupported("NULL literal in select list")
 		}
 		it.typ = t
 		if hasAggregate(f.Expr) {
@@ -431,18 +442,17 @@ func (e *ev) selectStmt(s *ast.SelectStmt, applyLimit bool) (*Rel, error) {
 		}
 		items = append(items, it)
 	}
+	p.items = items
 
 	// ORDER BY resolution
-	var ords []ordKey
-	var desc []bool
 	if s.OrderBy != nil {
 		for _, bi := range s.OrderBy.Items {
-			desc = append(desc, bi.Desc)
+			p.desc = append(p.desc, bi.Desc)
 			k := ordKey{outCol: -1, expr: bi.Expr}
 			switch x := bi.Expr.(type) {
 			case *ast.PositionExpr:
 				if x.N < 1 || x.N > len(items) {
-					return nil, invalid("ORDER BY position %d out of range", x.N)
+					return invalid("ORDER BY position %d out of range", x.N)
 				}
 				k.outCol = x.N - 1
 			case *ast.ColumnNameExpr:
@@ -457,7 +467,7 @@ func (e *ev) selectStmt(s *ast.SelectStmt, applyLimit bool) (*Rel, error) {
 				if k.outCol < 0 {
 					ci, err := sc.resolve(x.Name)
 					if err != nil {
-						return nil, err
+						return err
 					}
 					for i, it := range items {
 						if it.colIdx == ci {
@@ -467,9 +477,9 @@ func (e *ev) selectStmt(s *ast.SelectStmt, applyLimit bool) (*Rel, error) {
 					}
 				}
 			case *driver.ValueExpr:
-				return nil, unsupported("ORDER BY constant")
+				return unsupported("ORDER BY constant")
 			default:
-				txt := exprText(bi.Expr)
+				txt := e.text(bi.Expr)
 				for i, it := range items {
 					if it.colIdx < 0 && it.text == txt {
 						k.outCol = i
@@ -480,33 +490,26 @@ func (e *ev) selectStmt(s *ast.SelectStmt, applyLimit bool) (*Rel, error) {
 					hasAgg = true
 				}
 				if _, err := typeOf(bi.Expr, sc); err != nil {
-					return nil, err
+					return err
 				}
 			}
 			if s.Distinct && k.outCol < 0 {
-				return nil, invalid("ORDER BY expression is not in the SELECT DISTINCT list")
+				return invalid("ORDER BY expression is not in the SELECT DISTINCT list")
 			}
-			ords = append(ords, k)
+			p.ords = append(p.ords, k)
 		}
 	}
 
-	type outRow struct {
-		vals []Value
-		keys []Value
-	}
-	var out []outRow
-
-	grouped := s.GroupBy != nil || hasAgg
-	if grouped {
-		keyCols := map[int]bool{}
-		var keyList []int
+	p.grouped = s.GroupBy != nil || hasAgg
+	if p.grouped {
+		p.keyCols = map[int]bool{}
 		if s.GroupBy != nil {
 			for _, bi := range s.GroupBy.Items {
 				idx := -1
 				switch x := bi.Expr.(type) {
 				case *ast.PositionExpr:
 					if x.N < 1 || x.N > len(items) {
-						return nil, invalid("GROUP BY position %d out of range", x.N)
+						return invalid("GROUP BY position %d out of range", x.N)
 					}
 					idx = items[x.N-1].colIdx
 				case *ast.ColumnNameExpr:
@@ -523,32 +526,110 @@ func (e *ev) selectStmt(s *ast.SelectStmt, applyLimit bool) (*Rel, error) {
 							}
 						}
 						if !found {
-							return nil, err
+							return err
 						}
 					} else {
-						return nil, err
+						return err
 					}
 				default:
-					return nil, unsupported("GROUP BY expression %T", bi.Expr)
+					return unsupported("GROUP BY expression %T", bi.Expr)
 				}
 				if idx < 0 {
-					return nil, unsupported("GROUP BY on a computed select item")
+					return unsupported("GROUP BY on a computed select item")
 				}
-				if !keyCols[idx] {
-					keyCols[idx] = true
-					keyList = append(keyList, idx)
+				if !p.keyCols[idx] {
+					p.keyCols[idx] = true
+					p.keyList = append(p.keyList, idx)
 				}
 			}
 		}
+		// every column outside an aggregate must be a group key (ONLY_FULL_GROUP_BY)
+		for _, it := range items {
+			if it.colIdx >= 0 && !p.keyCols[it.colIdx] {
+				return invalid("column %s is neither grouped nor aggregated", it.name)
+			}
+			if it.colIdx < 0 {
+				if err := checkGrouped(it.expr, sc, p.keyCols); err != nil {
+					return err
+				}
+			}
+		}
+		for _, k := range p.ords {
+			if k.outCol < 0 {
+				if err := checkGrouped(k.expr, sc, p.keyCols); err != nil {
+					return err
+				}
+			}
+		}
+	}
+	for _, it := range items {
+		p.names = append(p.names, it.name)
+		p.types = append(p.types, it.typ)
+	}
+	var err error
+	p.hasLim, p.off, p.cnt, err = limitOf(s.Limit)
+	return err
+}
+
+type outRow struct {
+	vals []Value
+	keys []Value
+}
+
+func (e *ev) selectStmt(s *ast.SelectStmt, applyLimit bool) (*Rel, error) {
+	if s.Having != nil {
+		return nil, unsupported("HAVING")
+	}
+	if s.From == nil || s.From.TableRefs == nil {
+		return nil, unsupported("SELECT without FROM")
+	}
+	if len(s.WindowSpecs) != 0 {
+		return nil, unsupported("window functions")
+	}
+	src, err := e.join(s.From.TableRefs)
+	if err != nil {
+		return nil, err
+	}
+	sc := src.sc
+	p := e.analyse(s, sc)
+	if p.err != nil {
+		return nil, p.err
+	}
+
+	// WHERE
+	rows := src.rows
+	if s.Where != nil {
+		rows = make([][]Value, 0, len(src.rows))
+		c := &rowCtx{sc: sc}
+		for _, r := range src.rows {
+			c.row = r
+			v, err := eval(s.Where, c)
+			if err != nil {
+				return nil, err
+			}
+			t, err := truth(v)
+			if err != nil {
+				return nil, err
+			}
+			if t == 1 {
+				rows = append(rows, r)
+			}
+		}
+	}
+
+	items, ords := p.items, p.ords
+	out := make([]outRow, 0, len(rows))
+	if p.grouped {
 		var order []string
-		groups := map[string][][]Value{}
+		var groups map[string][][]Value
 		if s.GroupBy == nil {
 			order = []string{""}
-			groups[""] = rows
+			groups = map[string][][]Value{"": rows}
 		} else {
+			groups = map[string][][]Value{}
+			kv := make([]Value, len(p.keyList))
 			for _, r := range rows {
-				kv := make([]Value, len(keyList))
-				for a, i := range keyList {
+				for a, i := range p.keyList {
 					kv[a] = r[i]
 				}
 				k := EncodeRow(kv)
@@ -559,8 +640,8 @@ func (e *ev) selectStmt(s *ast.SelectStmt, applyLimit bool) (*Rel, error) {
 			}
 		}
 		for _, gk := range order {
-			g := &groupCtx{sc: sc, rows: groups[gk], keyCols: keyCols}
-			or := outRow{}
+			g := &groupCtx{sc: sc, rows: groups[gk], keyCols: p.keyCols}
+			or := outRow{vals: make([]Value, 0, len(items))}
 			for _, it := range items {
 				var v Value
 				var err error
@@ -587,30 +668,11 @@ func (e *ev) selectStmt(s *ast.SelectStmt, applyLimit bool) (*Rel, error) {
 			}
 			out = append(out, or)
 		}
-		// a grouped query over zero groups must still be statically valid
-		if len(order) == 0 {
-			for _, it := range items {
-				if it.colIdx >= 0 && !keyCols[it.colIdx] {
-					return nil, invalid("column %s is neither grouped nor aggregated", it.name)
-				}
-				if it.colIdx < 0 {
-					if err := checkGrouped(it.expr, sc, keyCols); err != nil {
-						return nil, err
-					}
-				}
-			}
-			for _, k := range ords {
-				if k.outCol < 0 {
-					if err := checkGrouped(k.expr, sc, keyCols); err != nil {
-						return nil, err
-					}
-				}
-			}
-		}
 	} else {
+		c := &rowCtx{sc: sc}
 		for _, r := range rows {
-			c := &rowCtx{sc: sc, row: r}
-			or := outRow{}
+			c.row = r
+			or := outRow{vals: make([]Value, 0, len(items))}
 			for _, it := range items {
 				if it.colIdx >= 0 {
 					or.vals = append(or.vals, r[it.colIdx])
@@ -621,6 +683,9 @@ func (e *ev) selectStmt(s *ast.SelectStmt, applyLimit bool) (*Rel, error) {
 					return nil, err
 				}
 				or.vals = append(or.vals, v)
+			}
+			if len(ords) > 0 {
+				or.keys = make([]Value, 0, len(ords))
 			}
 			for _, k := range ords {
 				if k.outCol >= 0 {
@@ -639,7 +704,7 @@ func (e *ev) selectStmt(s *ast.SelectStmt, applyLimit bool) (*Rel, error) {
 
 	if s.Distinct {
 		seen := map[string]bool{}
-		var d []outRow
+		d := out[:0:0]
 		for _, r := range out {
 			k := EncodeRow(r.vals)
 			if seen[k] {
@@ -651,10 +716,10 @@ func (e *ev) selectStmt(s *ast.SelectStmt, applyLimit bool) (*Rel, error) {
 		out = d
 	}
 
-	var sortErr error
 	if len(ords) > 0 {
+		var sortErr error
 		sort.SliceStable(out, func(i, j int) bool {
-			c, err := compareKeys(out[i].keys, out[j].keys, desc)
+			c, err := compareKeys(out[i].keys, out[j].keys, p.desc)
 			if err != nil {
 				sortErr = err
 			}
@@ -665,24 +730,17 @@ func (e *ev) selectStmt(s *ast.SelectStmt, applyLimit bool) (*Rel, error) {
 		}
 	}
 
-	rel := &Rel{Desc: desc}
-	for _, it := range items {
-		rel.Names = append(rel.Names, it.name)
-		rel.Types = append(rel.Types, it.typ)
+	rel := &Rel{Desc: p.desc, Names: p.names, Types: p.types, Rows: make([][]Value, len(out)), prep: e.prep}
+	if len(ords) > 0 {
+		rel.Keys = make([][]Value, len(out))
 	}
-	for _, r := range out {
-		rel.Rows = append(rel.Rows, r.vals)
+	for i, r := range out {
+		rel.Rows[i] = r.vals
 		if len(ords) > 0 {
-			rel.Keys = append(rel.Keys, r.keys)
+			rel.Keys[i] = r.keys
 		}
 	}
-	if len(ords) > 0 && rel.Keys == nil {
-		rel.Keys = [][]Value{}
-	}
-	rel.HasLimit, rel.Offset, rel.Count, err = limitOf(s.Limit)
-	if err != nil {
-		return nil, err
-	}
+	rel.HasLimit, rel.Offset, rel.Count = p.hasLim, p.off, p.cnt
 	if applyLimit {
 		rel.applyLimit()
 	}
@@ -780,7 +838,7 @@ func (e *ev) unionStmt(u *ast.UnionStmt, applyLimit bool) (*Rel, error) {
 			return nil, err
 		}
 		if i == 0 {
-			rel = &Rel{Names: r.Names, Types: r.Types, Rows: append([][]Value{}, r.Rows...)}
+			rel = &Rel{Names: r.Names, Types: r.Types, Rows: append([][]Value{}, r.Rows...), prep: e.prep}
 			continue
 		}
 		if len(r.Types) != len(rel.Types) {
@@ -875,7 +933,28 @@ func (e *ev) unionStmt(u *ast.UnionStmt, applyLimit bool) (*Rel, error) {
 // Query evaluates a SELECT or UNION. With applyLimit=false the top-level LIMIT is parsed
 // (HasLimit/Offset/Count) but not applied, so a caller can judge *which* windows are valid.
 func Query(db *DB, stmt ast.StmtNode, applyLimit bool) (*Rel, error) {
-	e := &ev{db: db}
+	return (&Prepared{Stmt: stmt}).Query(db, applyLimit)
+}
+
+// Prepared is a statement plus what the evaluator learned about it that does not depend
+// on the data (restored expression texts); use it when one statement is evaluated on many
+// contents. Not safe for concurrent use.
+type Prepared struct {
+	Stmt  ast.StmtNode
+	memo  map[ast.Node]string
+	plans map[*ast.SelectStmt]*selPlan
+	flds  []*mysql.Field
+	names map[string]int
+}
+
+// Query evaluates the prepared SELECT / UNION.
+func (p *Prepared) Query(db *DB, applyLimit bool) (*Rel, error) {
+	if p.memo == nil {
+		p.memo = map[ast.Node]string{}
+		p.plans = map[*ast.SelectStmt]*selPlan{}
+	}
+	stmt := p.Stmt
+	e := &ev{db: db, memo: p.memo, plans: p.plans, prep: p}
 	switch s := stmt.(type) {
 	case *ast.SelectStmt:
 		return e.selectStmt(s, applyLimit)
